@@ -58,7 +58,7 @@ type valRecord struct {
 }
 
 // mutations of a client-signed object; "re-signed" ones keep ID and signature consistent with the mutated header
-var sigMutations = []string{"none", "id", "sig", "sigkey", "checksum", "sizeLess", "sizeMore", "attrzero", "attrdup",
+var sigMutations = []string{"none", "id", "idsigned", "sig", "sigkey", "checksum", "sizeLess", "sizeMore", "attrzero", "attrdup",
 	"attrempty", "ecattr", "nocnr", "noowner", "expired", "parentid", "nochecksum", "tzchecksum",
 	"streamShort", "streamLong", "toobig"}
 var trustedMutations = []string{"none", "attrzero", "attrdup", "attrempty", "ecattr", "expired"}
@@ -178,6 +178,11 @@ func (w *c24World) build(sc valScenario, r *rand.Rand) (object.Object, []byte) {
 		id := obj.GetID()
 		id[5] ^= 0x01
 		obj.SetID(id)
+	case "idsigned": // wrong ID, but correctly signed by the owner: only the ID check can catch it
+		id := obj.GetID()
+		id[7] ^= 0x80
+		obj.SetID(id)
+		kit.Must(obj.Sign(signer))
 	case "sig":
 		sig := obj.Signature()
 		v := slices.Clone(sig.Value())
